@@ -79,6 +79,51 @@ def decorate(shapes, seed=0, feat=frozenset()):
             if f.stack:
                 f.stack.pop()
             continue
+        if shape.startswith("e_"):
+            # rows carrying one structural error (Gen_RowParser ErrShapes, C17)
+            row.update(type="text", name=name, label=f"Label {name}")
+            if shape == "e_notype":
+                del row["type"]
+            elif shape == "e_noname":
+                del row["name"]
+            elif shape == "e_badname":
+                row["name"] = rnd.choice(["1", "-", "x y ", "$"]) .strip() + name if rnd.random() < 0.7 else name + " z"
+            elif shape == "e_badname_group":
+                row.update(type="begin group", name="9" + name)
+                f.stack.append(row["name"])
+            elif shape == "e_noname_repeat":
+                row["type"] = "begin repeat"
+                del row["name"]
+                f.stack.append("?")
+            elif shape == "e_calc_nocalc":
+                row["type"] = "calculate"
+                del row["label"]
+            elif shape == "e_sel_nolist":
+                row["type"] = rnd.choice(SEL1 + SELM) + " Z"
+            elif shape == "e_sel_other_filter":
+                row["type"] = "select_one L or_other"
+                f.col("choice_filter")
+                row["choice_filter"] = "grp = 'g1'"
+                lists_used.add("L")
+            elif shape == "e_audit_named":
+                row.update(type="audit", name="aud")
+                del row["label"]
+            elif shape == "e_unknown_type":
+                row["type"] = "no such type"
+            elif shape == "e_nolabel":
+                del row["label"]
+            elif shape == "e_badref":
+                c = rnd.choice(["relevant", "constraint", "calculation", "required"])
+                f.col(c)
+                row[c] = "${nowhere} = 1"
+            elif shape == "e_selfdup_ref":
+                f.col("relevant")
+                row["relevant"] = "${dq} = 1"
+            else:
+                raise ValueError(shape)
+            f.rows.append(row)
+            f.info.append(info)
+            continue
         if shape == "audit":
             row["type"] = "audit"
             row["name"] = rnd.choice([None, "audit"])
